@@ -67,6 +67,36 @@ def residual {m n : Nat} (M : Mat K n n) (G : Mat K m n) (f udot : Vec K n) (lam
 def activeRows {m ma n : Nat} (act : Fin ma → Fin m) (G : Mat K m n) : Mat K ma n := fun k => G (act k)
 def activeVec {m ma : Nat} (act : Fin ma → Fin m) (b : Vec K m) : Vec K ma := fun k => b (act k)
 
+/-! ### assembly over the list of all constraint equations with an enable mask
+
+Every loop of `multiplyByPVA`, `multiplyByPVATranspose`, `calcConstraintForcesFromMultipliers`,
+`calcConstraintAccelerationErrors` starts with `if (isConstraintDisabled(s,cx)) continue;` — the rows of a disabled
+constraint are simply absent from `G`, `b` and the multiplier vector, the remaining rows keep their relative order.
+`assemble` is that filter; `loopFDList` runs the operator on the assembled rows (this is what the driver executes on the
+FULL constraint matrix exported with all constraints enabled, plus the mask). -/
+
+/-- keep the entries whose flag is `true`, in order -/
+def assemble {α : Type} (en : List Bool) (rows : List α) : List α := ((en.zip rows).filter (fun p => p.1)).map (fun p => p.2)
+
+/-- matrix with the given rows (missing entries read as 0) -/
+def ofRows {n : Nat} (rows : List (List K)) : Mat K rows.length n := fun i j => (rows.get i).getD j.val 0
+/-- vector with the given entries -/
+def ofList (xs : List K) : Vec K xs.length := fun i => xs.get i
+
+/-- the operator on an already assembled system given as lists; `pinv` may depend on the assembled matrix (it is the
+pseudo-inverse of `G M⁻¹ ~G` of the ENABLED rows) -/
+def loopFDAsm {n : Nat} (minv : Vec K n → Vec K n) (pinv : (m : Nat) → Mat K m n → Vec K m → Vec K m)
+    (ra : List (List K)) (ba : List K) (f : Vec K n) : List K × List K :=
+  let G : Mat K ra.length n := ofRows ra
+  let bb : Vec K ra.length := fun i => ba.getD i.val 0
+  let r := loopFD minv (pinv ra.length G) G f bb
+  (List.ofFn r.udot, List.ofFn r.lam)
+
+/-- `calcLoopForwardDynamicsOperator` on lists: all constraint rows `rows`/`b` with enable flags `en` -/
+def loopFDList {n : Nat} (minv : Vec K n → Vec K n) (pinv : (m : Nat) → Mat K m n → Vec K m → Vec K m)
+    (en : List Bool) (rows : List (List K)) (b : List K) (f : Vec K n) : List K × List K :=
+  loopFDAsm minv pinv (assemble en rows) (assemble en b) f
+
 /-- `calcConstraintPower`: `−(Σ_B ~F_B V_B + Σ f u)`, which by virtual work (C07 `force_adjoint`, C04) is `−⟪~G λ, u⟫` -/
 def power {m n : Nat} (G : Mat K m n) (lam : Vec K m) (u : Vec K n) : K := - dot (tmulVec G lam) u
 
